@@ -201,6 +201,7 @@ func constTerm(c *ssa.Const) Val {
 }
 
 var strConsts = map[string]*Term{}
+var strOf = map[*Term]string{}
 
 // StringConst builds the slice term of a string literal (explicit stores for short strings).
 func StringConst(s string) *Term {
@@ -220,6 +221,7 @@ func StringConst(s string) *Term {
 	}
 	t := MkSlice(ss, IntC(int64(len(s))), IntC(0), arr)
 	strConsts[s] = t
+	strOf[t] = s
 	return t
 }
 
